@@ -950,7 +950,7 @@ func isParamOf(fi *load.FuncInfo, v *types.Var) bool {
 func CheckC13(c *Ctx) {
 	run := c.Run
 	run.Technique = "typed-AST protocol/typestate lints on Backtest.Run and Backtest.worker (Begin → per asset: AssetBegin → one Write per strategy → AssetEnd → End after Wait) + SSA shared-write analysis rooted at `go b.worker` + lock-consistency lints on both report implementations + comparator totality lint"
-	run.Explanation = "Equality of the reported numbers with a direct evaluation is NOT decided. Decided structurally: Begin is called before any worker starts and End after wg.Wait(); in the worker, for every asset, AssetBegin precedes the strategy loop and AssetEnd follows it; each iteration of the strategy loop calls report.Write exactly once, with the outputs of strategy.ComputeWithOutcome for that strategy on a fresh SliceToChan of that asset's snapshots (no iteration can skip it), and ComputeWithOutcome hands back the strategy's own action stream, untransformed, with Outcome(closings of the same snapshots, those actions); all assets flow through one channel shared by the workers, and the loop over that channel is left only when it is exhausted (no return, break, goto, panic or process exit in its body: an asset that cannot be loaded is skipped, it does not stop the worker). The SSA shared-write analysis shows that nothing reachable from `go b.worker` (including both bundled Report implementations, resolved through the interface by CHA) writes shared memory without holding a mutex, and in both report types every access to the shared maps/slices happens under the mutex. Functions passed to slices.SortFunc / sort.Slice must be total orders on the compared field: no conversion of a floating-point difference to int (results closer than 1 would compare equal, so the entry presented as best need not be maximal). No run crashes: every slice index in package backtest is the key of a range over that slice, a constant below the constant element count of helper.Duplicate, or protected by a length check; the rule is exercised on a built-in positive example on every run. Further: the worker hands Write the two results of one ComputeWithOutcome call as they are, for the strategy written, on two different branches of one Duplicate (for exactly two consumers) of a fresh SliceToChan; the snapshots come from LastDays days before now; nothing leaves the iteration between AssetBegin and AssetEnd; defaults replace the configured names/strategies only when none were configured; the workers' loop runs at least once for Workers >= 1; every field of the result both reports record is the specified SSA term over Write's parameters (last outcome, times 100 in the HTML report; last action; transactions over all actions); ordering functions put the larger outcome first on all three orderings and the entry picked after a sort is the first; what a report appends to starts empty in Begin/AssetBegin; length guards before constant indices are decided, also when they stand in the callers of a helper. The begin notification carries the resolved lists: no assignment to the receiver's Names/Strategies is reachable from the Begin call in Run (go/cfg)."
+	run.Explanation = "Equality of the reported numbers with a direct evaluation is NOT decided. Decided structurally: Begin is called before any worker starts and End after wg.Wait(); in the worker, for every asset, AssetBegin precedes the strategy loop and AssetEnd follows it; each iteration of the strategy loop calls report.Write exactly once, with the outputs of strategy.ComputeWithOutcome for that strategy on a fresh SliceToChan of that asset's snapshots (no iteration can skip it), and ComputeWithOutcome hands back the strategy's own action stream, untransformed, with Outcome(closings of the same snapshots, those actions); all assets flow through one channel shared by the workers, and the loop over that channel is left only when it is exhausted (no return, break, goto, panic or process exit in its body: an asset that cannot be loaded is skipped, it does not stop the worker). The SSA shared-write analysis shows that nothing reachable from `go b.worker` (including both bundled Report implementations, resolved through the interface by CHA) writes shared memory without holding a mutex, and in both report types every access to the shared maps/slices happens under the mutex. Functions passed to slices.SortFunc / sort.Slice must be total orders on the compared field: no conversion of a floating-point difference to int (results closer than 1 would compare equal, so the entry presented as best need not be maximal). No run crashes: every slice index in package backtest is the key of a range over that slice, a constant below the constant element count of helper.Duplicate, or protected by a length check; the rule is exercised on a built-in positive example on every run. Further: the worker hands Write the two results of one ComputeWithOutcome call as they are, for the strategy written, on two different branches of one Duplicate (for exactly two consumers) of a fresh SliceToChan; the snapshots come from LastDays days before now; nothing leaves the iteration between AssetBegin and AssetEnd; defaults replace the configured names/strategies only when none were configured; the workers' loop runs at least once for Workers >= 1; every field of the result both reports record is the specified SSA term over Write's parameters (last outcome, times 100 in the HTML report; last action; transactions over all actions); ordering functions put the larger outcome first on all three orderings and the entry picked after a sort is the first; what a report appends to starts empty in Begin/AssetBegin; length guards before constant indices are decided, also when they stand in the callers of a helper. The begin notification carries the resolved lists: no assignment to the receiver's Names/Strategies is reachable from the Begin call in Run (go/cfg). Every exit of HTMLReport.AssetEnd (or of the one unexported helper holding the lookup) releases the asset's entry, except the not-found exit (go/cfg), so a later run on the same report can begin the asset again."
 	run.Trusted = []string{"go/types", "go/ssa + CHA", "sync.Mutex semantics"}
 	runFi := c.fn("backtest", "Backtest", "Run")
 	// what a worker writes is what ComputeWithOutcome hands back: the strategy's own actions and
@@ -1391,6 +1391,7 @@ func (c *Ctx) comparators() {
 	run := c.Run
 	c.sortedIsUsed()
 	c.beginAnnouncesResolved()
+	c.assetEntryReleased()
 	n := 0
 	for _, pk := range c.P.Pkgs {
 		info := pk.TypesInfo
